@@ -57,6 +57,10 @@ def cases(tier, seed, shard, nshards):
                        else rng.choice(["c-1", "c-1", "c-2", "c0"]))
         case = {"keys": keys, "key": rng.choice([None, "half", "ahalf", "aident", "noneodd", "anoneodd", "tuple", "onesided", "aonesided"]), "ops": ops,
                 "flav": rng.choice(["list", "async_gen", "async_class", "sync_iter"]), "susp": rng.choice([0, 0, 1])}
+        if rng.random() < 0.06:
+            # some items ARE None; grouped by equality (no key) or by a key that can take them
+            case["keys"] = [k if rng.random() < 0.55 else -1 for k in keys]
+            case["key"] = rng.choice([None, None, "isnone", "aisnone"])
         if case["key"] is not None and keys and rng.random() < 0.12:
             # the key function fails ONCE, for its k-th item, and the consumer carries on with the same operations:
             # itertools.groupby drops the item whose key it could not compute; it must not turn up in any group
@@ -96,6 +100,8 @@ class NarrowKey:
 def _key_impl(kname):
     if kname is None:
         return None
+    if kname.endswith("isnone"):
+        return lambda x: x is None
     if kname.endswith("onesided"):
         return lambda x: WideKey() if x.key % 2 else NarrowKey()
     if kname.endswith("half"):
@@ -120,7 +126,8 @@ def gb_side(case, sync, fault=None, fnfl=None, cont=False):
     plan = Plan(0 if sync else case.get("susp", 0))
     if fault is not None and fault.kind == "src":
         plan = Plan(plan.susp, fault.use, fault.exc)
-    st = SrcState(0, [Item(k, (0, i)) for i, k in enumerate(keys)], plan, log=True)
+    # (key -1 stands for an item that IS ``None`` - a value like any other, also as the first item of a run)
+    st = SrcState(0, [Item(k, (0, i)) if k != -1 else None for i, k in enumerate(keys)], plan, log=True)
     fs = None
     impl = _key_impl(kname)
     if impl is not None:
